@@ -73,7 +73,7 @@ pub fn check(v: &View, vd: &mut Verdict) {
                         }
                         (Cb::Stopped, true) => {
                             stopped_calls_this_inc += 1;
-                            let ok = if stream { st == St::Finished } else { st == St::Running };
+                            let ok = if stream { st == St::Finished } else { st == St::Running || (st == St::InHandler && v.rt[a].timeout.is_some()) };
                             if !ok {
                                 bad(
                                     if stream && st == St::Running { "stopped_without_finished" } else { "stopped_out_of_place" },
@@ -97,6 +97,10 @@ pub fn check(v: &View, vd: &mut Verdict) {
                     if task_ended.is_some() {
                         bad("handler_after_end", format!("{msg:?} handled at {} after the task ended", e.stamp));
                         continue;
+                    }
+                    // with a handler timeout configured an invocation may have been abandoned (it never exits)
+                    if st == St::InHandler && v.rt[a].timeout.is_some() {
+                        st = St::Running;
                     }
                     match st {
                         St::Running => {}
@@ -145,6 +149,27 @@ pub fn check(v: &View, vd: &mut Verdict) {
                     (OpWhat::AwaitClone, Some(r)) if r.is_ok() => vd.fail("C03/start_error_not_failed", format!("actor {a}: started failed but awaiting the address returned Ok (client {} op {})", o.client, o.op)),
                     (OpWhat::Join, Some(OpRes::Joined(Some(_)))) => vd.fail("C03/start_error_not_failed", format!("actor {a}: started failed but join returned the actor (client {} op {})", o.client, o.op)),
                     _ => {}
+                }
+            }
+        }
+    }
+    // the end of the attached stream is a graceful end: finished and stopped follow (not only when the
+    // harness finally drops every handle)
+    {
+        let mut sid = 0;
+        for (a, rt) in v.rt.iter().enumerate() {
+            if !rt.stream || v.actors[a].spawned.is_none() {
+                continue;
+            }
+            let ended = v.hist.iter().find_map(|e| match &e.kind {
+                EvKind::StreamEnded { stream } if *stream == sid => Some(e.stamp),
+                _ => None,
+            });
+            sid += 1;
+            if let Some(e) = ended {
+                let stopped = v.cbs.iter().find(|c| c.actor == a && c.cb == Cb::Stopped).map(|c| c.enter);
+                if e < v.phase(Phase::Settle) && stopped.is_none_or(|s| s > v.phase(Phase::Teardown)) && v.actors[a].task_end.is_none_or(|(s, _)| s > v.phase(Phase::Teardown)) {
+                    vd.fail("C03/no_stopped_after_stream_end", format!("actor {a}: its stream ended at {e} (run phase) but finished/stopped were not called before the harness dropped every handle at {}", v.phase(Phase::Teardown)));
                 }
             }
         }
